@@ -1,5 +1,5 @@
 """What MANIFEST.json claims, per property (edited by hand; tools/mkmanifest.py renders it)."""
-HOOK_COMMITS = ["7ed0aad", "d8606cd", "08f1a83", "8f24443", "c07948e"]
+HOOK_COMMITS = ["7ed0aad", "d8606cd", "08f1a83", "8f24443", "c07948e", "8098570"]
 NOTES = ("Every check rebuilds the harness against /repo's working tree and the Lean project, runs the proof stage "
          "(lake build of the property's theorem module + #print axioms audit), the model/implementation correspondence "
          "and the property oracle on the implementation. Genuine defects found are repaired by fix: commits in /repo "
@@ -55,15 +55,23 @@ CLAIMS = {
   technique="Lean 4 proof (decode∘encode per format; override table in closed form; injectivity of the Eco field map) + SPEC-driven differential incl. real HTTP"),
  "C19": dict(
   category="other",
-  text=("PARTIAL by nature. Proved in Lean 4 for EVERY JSON value (mutual induction over values, arrays and objects): the XML converter only emits element "
-        "names that are XML names (a key that is not one becomes <entry key=…>), its tags are properly nested (stack discipline, nothing left open), the escaped "
-        "form of every Unicode scalar contains no '<', no raw control character (only TAB/LF in element text) and no '\"' in attribute values; and main's "
-        "control flow exits non-zero with a message and without a document on every failure, 0 with a document only on complete success. EXERCISED, not proved: "
-        "the real binary (rebuilt every run) against loopback servers, 2 modes x 6 formats: JSON and BSON (independent walker) compared with the library's own "
-        "response, XML compared byte for byte with the Lean model's rendering of the same value (and parsed by expat where XML 1.0/1.1 agree), invalid invocations "
-        "of each kind. The serialisers (serde_json, quick-xml, bson, base64, hex), clap and the process itself are outside any model."),
-  note=TB + "Known finding: u64 > i64::MAX is not representable in BSON (clean error now). Games of other protocol families are added as they land.",
-  technique="Lean 4 proof of the converter's well-formedness invariants and exit logic + byte-exact differential against the real binary (partial)"),
+  text=("PARTIAL (the remainder is named). Proved in Lean 4 over a model of crates/cli/src/main.rs (Proto/Cli.lean, CliPlan.lean, CliJson.lean, CliCodec.lean; "
+        "Props/C19.lean, C19_cli.lean): the PLAN of every invocation as an iff — clap accepts, the game is the looked-up row, port / timeouts / retries / mode / "
+        "format are the caller's, the host is an IP literal or a name to resolve, the host name enters the extra settings exactly when the host was a name and "
+        "none was given — and the query issued is the generic query of that game with those settings (C14_cli_*); a bad flag, an unknown game, an unresolvable "
+        "host, a failed query and a failed serialisation each end with a non-zero status, a message and NO document, a document is printed only when every step "
+        "succeeded and then the status is 0 (the two panic! sites and the expect are explicit crash branches shown unreachable); the XML converter for EVERY JSON "
+        "value emits XML names only, properly nested tags, and for every Unicode scalar an XML 1.1 character or a reference to one; hex and base64: decode∘encode = "
+        "id for all byte strings, alphabet and padding as the standards say; the JSON printers (compact and pretty): the RFC 8259 reader inverts them for every "
+        "value, strings over all scalars; generic mode prints exactly the ten members of the common view (C15 tables), protocol-specific mode the original "
+        "response. TIED on every run: the real binary with a cfg-guarded hook printing its plan (every game id, unknown / non-ASCII ids, IP literals and names, "
+        "every flag at its boundaries, every mode x format) against the model of main; the real writers byte-exact against the model (JSON, pretty JSON, XML) or "
+        "through the model's decoders (BSON hex / base64); end to end against loopback servers for Valve and one game of each UDP family x 2 modes x 6 formats, "
+        "documents compared with the library's own response, the requests the fake server saw compared with the library's query of that game; invalid "
+        "invocations of each kind. NOT proved: serde's derive output, the serialiser crates succeeding, BSON's binary layout (Python walker), the Debug text, "
+        "the resolver, clap's argv tokenisation, the process."),
+  note=TB + "Known finding: u64 > i64::MAX is not representable in BSON (clean error now). Repaired on the way: XML noncharacters U+FFFE / U+FFFF written literally (40e0891). std's IpAddr parser, hex, base64 and serde_json's formatters are mirrored in Lean and compared with the crates on every run.",
+  technique="Lean 4 proof (plan of an invocation as an iff, exit logic, XML converter invariants by mutual induction, codec round trips, JSON print/read inverse) + plan-hook and byte-exact writer differential against the real binary (partial)"),
  "C12": dict(
   category="other",
   text=("PARTIAL by nature. Proved in Lean 4 on the model, for every server behaviour and every modelled family (Props/C12.lean, C12_<family>.lean): "
